@@ -897,4 +897,14 @@ pub fn run(ctx: &mut Ctx) {
         ctx.sample(|| json!({"burst": b}));
         r
     });
+
+    // the daemon as receiver: a stream that ends inside a request is an error of wait(), a clean disconnect only at a boundary
+    let mut dcuts = Vec::new();
+    for (ci, code) in [fe::SET_FEATURES, fe::SET_VRING_NUM, fe::SET_VRING_ADDR].into_iter().enumerate() {
+        let len = super::c16::request_bytes(code).0.len();
+        for cut in 0..=len {
+            dcuts.push(super::c16::CutCase { code, cut, serve: false, rwlock: (cut + ci) % 2 == 0, half_close: cut % 3 == 1 });
+        }
+    }
+    ctx.enumerate("daemon_stream_cut", dcuts, |ctx, c| super::c16::run_cut(ctx, c));
 }
